@@ -11,7 +11,8 @@ import json
 import os
 import shutil
 
-from .core import LEAN
+from .core import LEAN, BIN, goenv
+import subprocess
 from . import designs, e2e, c04
 
 CREDS = ["secret", "a b", "Bearer tok.en", "tok=en&x", "Basic Zm9v", "x y z", "p@ss/w0rd", "k-1"]
@@ -95,6 +96,47 @@ def cred_line(key):
     return "credf %d %s %s %s" % (len(fs), " ".join(hx(f) for f in fs), hx(at), hx(value))
 
 
+def transport_schemes(c, work):
+    """Methods exposed over HTTP AND gRPC: after evaluation each transport endpoint has its own copy of every scheme, saying where THAT
+    transport takes the credential from (HTTP: a header or the query string; gRPC: metadata). The generated HTTP decoders strip the
+    bearer prefix only for schemes carried in a header, so a scheme expression shared with the gRPC endpoint (which records `metadata`)
+    silently leaves `Bearer ` in front of the token."""
+    P = lambda p: {"type": {"prim": p}}
+    kinds = [("jwt", "token", "jwt", ["api:read"]), ("apikey", "key", "apikey:s_apikey", None), ("oauth2", "access", "oauth2", ["api:read"])]
+    for order in (0, 1):
+        methods, schemes = [], []
+        for kind, attr, cred, scopes in (kinds if order == 0 else kinds[::-1]):
+            schemes.append(dict({"name": "s_" + kind, "kind": kind}, **({"scopes": scopes} if scopes else {})))
+            methods.append({"name": "m_" + kind, "security": [{"schemes": ["s_" + kind]}], "creds": {attr: cred},
+                            "payload": {"type": {"is_object": True, "object": [{"name": attr, "att": P("String")}]}, "required": [attr]},
+                            "http": {"verb": "GET", "path": "/" + kind}, "grpc": {}})
+        d = {"api": "both%d" % order, "schemes": schemes, "services": [{"name": "sv", "grpc": True, "methods": methods}]}
+        dj = os.path.join(work, "both%d.json" % order)
+        json.dump(d, open(dj, "w"))
+        p = subprocess.run([os.path.join(BIN, "genrun"), "schemes", "-design", dj], capture_output=True, text=True, env=goenv())
+        try:
+            rows = json.loads(p.stdout).get("schemes")
+        except Exception:
+            rows = None
+        if not rows:
+            c.broken.append({"kind": "tie", "name": "genrun schemes", "detail": (p.stdout + p.stderr)[-500:]})
+            return
+        c.evaluations += len(rows)
+        ptrs = {}
+        for r in rows:
+            c.count(("schemes", order, r["Transport"], r["Method"]))
+            c.hist("scheme location per transport", "%s %s: %s" % (r["Transport"], r["Kind"], r["In"]))
+            want = ("header", "query") if r["Transport"] == "http" else ("metadata",)
+            if r["In"] not in want:
+                c.fail("security/scheme-location/%s" % r["Transport"], "%s.%s over %s: the scheme %s records the credential location %r (name %r), expected one of %s" %
+                       (r["Service"], r["Method"], r["Transport"], r["Scheme"], r["In"], r["Name"], want), input={"design": d}, design=d)
+            if r["Ptr"] in ptrs and ptrs[r["Ptr"]] != (r["Transport"], r["Method"]):
+                c.fail("security/scheme-shared-between-endpoints", "%s.%s over %s and %s over %s use ONE scheme expression for %s: what one endpoint finalizes "
+                       "(location, name) is what the other generates from" % (r["Service"], r["Method"], r["Transport"], ptrs[r["Ptr"]][1], ptrs[r["Ptr"]][0], r["Scheme"]),
+                       input={"design": d}, design=d)
+            ptrs.setdefault(r["Ptr"], (r["Transport"], r["Method"]))
+
+
 def run(c):
     n = 36 if c.tier == "quick" else 360
     c.cov["rule"] = ("designs 0..%d of the stream generated with security (1-3 of Basic/APIKey/JWT/OAuth2; requirements of 1-2 schemes, 1-2 alternatives, at "
@@ -118,6 +160,7 @@ def run(c):
         return
     drv = os.path.join(LEAN, ".lake/build/bin/drv_sec")
     work = designs.scratch("C06")
+    transport_schemes(c, work)
     builds = e2e.build_many(c.seed, range(n), lambda i: ["-security"] + (["-errors"] if i % 4 == 3 else []), work)
     total = 0
     for b in builds:
